@@ -283,6 +283,14 @@ impl<'tcx> Cx<'tcx> {
                                     parts.push(wntp!(format!("{:?}", st)));
                                 }
                             }
+                            // a promoted constant built by a const fn call, e.g. `(a..=b)` is RangeInclusive::new(a, b)
+                            if let Some(term) = &bb.terminator {
+                                if let TerminatorKind::Call { .. } = &term.kind {
+                                    let t = wntp!(format!("{:?}", term.kind));
+                                    let t = t.split(" -> ").next().unwrap_or("").to_string();
+                                    parts.push(t);
+                                }
+                            }
                         }
                         let joined = parts.join("; ");
                         let _ = write!(o, ",\"pv\":{}", jstr(&joined));
